@@ -191,6 +191,13 @@ def gen_value(draw, spec, ctx=None, depth=0, window=None, overrides=None):
         n = spec._length if spec._length else draw(st.integers(0, 3))
         vals = []
         inner = se.ParseContext(vals, parent=ctx)
+        cap = getattr(getattr(spec, "_len_spec", None), "max_val", None)
+        if not spec._length and cap is not None and cap <= 255 and draw(st.integers(0, 24)) == 0:
+            # as many entries as the count field can state: one generated entry, repeated
+            import copy
+            one = gen_value(draw, spec._entry_ser, inner, nxt)
+            vals.extend(copy.deepcopy(one) for _ in range(cap))
+            return vals
         for _ in range(n):
             vals.append(gen_value(draw, spec._entry_ser, inner, nxt))
         return vals
